@@ -3,16 +3,25 @@ package alg
 // Overlay-only (verification harness): drives the map-key sorter with a caller-chosen input
 // order (through the public API the order is Go's randomised map iteration order).
 
-import "unsafe"
+import (
+	"unsafe"
+
+	"github.com/bytedance/sonic/internal/rt"
+)
 
 // VerifSortKeys sorts keys exactly as IteratorStart does and reports whether every value
-// stayed attached to its key.
-func VerifSortKeys(keys []string) (sorted []string, paired bool) {
+// stayed attached to its key. With own set, every key lives in its pair's own scratch array
+// (the layout IteratorStart builds for integer keys: k points into m), so a sorter that moves
+// whole elements instead of (k, v) leaves k pointing at another pair's digits.
+func VerifSortKeys(keys []string, own bool) (sorted []string, paired bool) {
 	kvs := make([]_MapPair, len(keys))
 	tags := make([]int, len(keys))
 	for i, k := range keys {
 		tags[i] = i
 		kvs[i].k = k
+		if own && len(k) > 0 && len(k) <= len(kvs[i].m) {
+			kvs[i].k = rt.Mem2Str(append(kvs[i].m[:0], k...))
+		}
 		kvs[i].v = unsafe.Pointer(&tags[i])
 	}
 	if len(kvs) > 1 {
@@ -21,8 +30,8 @@ func VerifSortKeys(keys []string) (sorted []string, paired bool) {
 	paired = true
 	sorted = make([]string, len(kvs))
 	for i := range kvs {
-		sorted[i] = kvs[i].k
-		if t := *(*int)(kvs[i].v); keys[t] != kvs[i].k {
+		sorted[i] = string(append([]byte(nil), kvs[i].k...))
+		if t := *(*int)(kvs[i].v); keys[t] != sorted[i] {
 			paired = false
 		}
 	}
